@@ -1129,6 +1129,7 @@ func c29NewWorld(r *simrt.Run) *c29World {
 	case "clean":
 	case "badger":
 		w.badger = true
+		w.specs = w.specs[:1]
 	case "faults", "crash":
 		w.fr.txFail = [2]int{[]int{1, 4, 7}[r.Draw("cfg", 3)], 8}
 		w.fr.txPanic = [2]int{1, 40}
@@ -1197,6 +1198,10 @@ func (w *c29World) runLife(s *simrt.Sched, li int, final bool) {
 	}
 	if li > 0 {
 		loadEpochs = r.Draw("cfg", 3)
+	}
+	if w.badger {
+		// every payment makes Badger's DropPrefix allocate a fresh 64 MB memtable: keep these runs small
+		loadEpochs, nProd, per = 1+r.Draw("cfg", 2), 1+r.Draw("cfg", 2), 2+r.Draw("cfg", 3)
 	}
 	// after the load: enough epochs for every epoch to leave the window and for all retries
 	tailEpochs := int(w.dist/w.epochSize) + MaxPaymentRequestsRetiresForSession + 2
@@ -1440,7 +1445,13 @@ func (w *c29World) finalChecks(L *c29Life) {
 }
 
 func init() {
-	simrt.Register("C29", &simrt.PropSpec{Fn: runC29, Profiles: []string{"clean", "faults", "crash", "crash", "badger", "faults", "crash", "crash"},
+	// 1 run in 64 uses the real in-memory Badger (slow: see runLife), the others SimDisk
+	var profiles []string
+	for i := 0; i < 64; i++ {
+		profiles = append(profiles, []string{"clean", "faults", "crash", "crash", "faults", "crash", "clean", "crash"}[i%8])
+	}
+	profiles[20] = "badger"
+	simrt.Register("C29", &simrt.PropSpec{Fn: runC29, Profiles: profiles,
 		NonTrivial: func(r *simrt.Run) bool {
 			return r.Ops["proof:ok"] >= 3 && r.Ops["claim:ok"]+r.Ops["claim:failed"] >= 1 && r.Switches >= 50
 		},
